@@ -47,8 +47,13 @@ func (m *Map[K, V]) LoadOrStore(key K, value V) (actual V, loaded bool) {
 	}
 	verifhook.Yield("map.LoadOrStore.gap", 0)
 	m.mutex.Lock()
+	defer m.mutex.Unlock()
+	// re-check under the write lock: another goroutine may have stored the key
+	// between the read-locked lookup above and here.
+	if v, ok = m.data[key]; ok {
+		return v, true
+	}
 	m.data[key] = value
-	m.mutex.Unlock()
 	return value, false
 }
 
